@@ -48,6 +48,7 @@ CONSTANTS Deviations, \* the named deviations of the coded decoders that the des
           Large,     \* TRUE = the large alphabets of scopes items/bytes
           NV,        \* sample variants 0..NV-1 per type (scope typed)
           NodeCap,   \* at most this many nodes of a sample are mutated (stride selection)
+          PairK,     \* the pairwise value mutation is applied to every sample and to real objects number 0..PairK-1 of a type
           MaxMut,    \* number of mutations applied in sequence
           GenMode    \* "none" | "print" : print every case as JSON
 
@@ -515,7 +516,7 @@ NodeMutants(cc) ==
             ps == PathSeq(it)
             ms == { m \in NodesOf(cc, Len(ps)) \X NodeOps : Applicable(m[2], At(it, ps[m[1]])) }
         IN { MutCase(cc, Enc(Subst(it, ps[m[1]], NewNode(m[2], At(it, ps[m[1]])))), m[2], m[1]) : m \in ms }
-           \cup (IF cc.mut = <<>> THEN PairMutants(cc, it, ps) ELSE {})
+           \cup (IF cc.mut = <<>> /\ (cc.sid < SeedBase \/ SeedLog[cc.sid - SeedBase].k < PairK) THEN PairMutants(cc, it, ps) ELSE {})
 ByteMutants(cc) == { MutCase(cc, ByteMut(op, cc.b), op, 0) : op \in { o \in ByteOps : ByteApplicable(o, cc.b) } }
 Next == \/ /\ Scope \in {"typed", "seeds", "all"}
            /\ Len(c.mut) < MaxMut
